@@ -365,4 +365,32 @@ PROPS["C16"] = dict(
     timeout=dict(quick=900, thorough=7200),
 )
 
+PROPS["C11"] = dict(
+    lean=["Upf.Props.C11"],
+    level="proof",
+    race=True,
+    claim="T1 facts regenerated from the source and evaluated in Lean: the UP4 bookkeeping every association shares (counters, meters, both meter pools, UE "
+          "address maps, tunnel peers, applications and their ID pools) is reached from no entry point of the type without a lock of the object held - "
+          "SendMsgToUPF, the entry every association's goroutine uses, takes one mutex for the whole request; nothing outside the type touches its fields; "
+          "IPPool and FTEIDGenerator are atomic objects. Theorems: under such a discipline no two threads are ever inside accesses guarded by the same "
+          "mutex (every schedule, any length, any number of threads); every interleaving of two command streams on disjoint keys leaves the tables of "
+          "the sequential composition (BESS); with the request mutex a concurrent UP4 execution is a request sequence, to which C04/C15/C16 apply. "
+          "T2: cross-association histories (2-4 associations sharing gNB peers and application filters) decided by the UP4 model; streams of "
+          "establishments, QER updates and deletions from 2..8 associations AT THE SAME TIME against the agent built with the race detector, on both "
+          "datapaths: no race report, no crash, every request accepted, and at each quiescent point the datapath holds what the sessions denote "
+          "(BESS: tables equal to the model's after replaying the streams association by association and equal to the image; UP4: entry counts per "
+          "table, shared peers / applications counted once, references resolvable, cells exclusive, pool occupancy exact, all pools full at the end).",
+    note="partial: the Go scheduler and memory model are not modelled; data races are searched by the race detector under randomised pacing (a dynamic "
+         "analysis: it reports races on the schedules that occurred). The lock facts do not tell WHICH mutex guards a field: start-up / reconnect "
+         "initialisation (tryConnect -> initialize -> clearDatapathState) re-creates the pools under tryConnectMu, not under the request mutex. The UP4 "
+         "concurrent phase is checked order-independently (identifiers depend on the order).",
+    rule="2 (12) sequential cross-association UP4 histories of 30 (80) requests; then per datapath 3 (20) runs with 2,4,8,(3,5,6,7) associations, each "
+         "establishing 10 (100) sessions with keys disjoint between associations and 3 shared gNBs / 3 shared application filters, a QER update on a third "
+         "of them, random sub-millisecond pacing, then all associations delete their sessions at the same time; non-trivial = an accepted request",
+    trusted_base=P4_TB + ["fake BESS server (harness/internal/sysh/bess.go)", "Go race detector (runtime/race, ThreadSanitizer)"],
+    assumptions=["sessions of different associations have disjoint match keys (UE addresses, TEIDs) - the control planes' responsibility",
+                 "the plug-in object is handed to other goroutines only after SetUpfInfo returned"],
+    timeout=dict(quick=1200, thorough=7200),
+)
+
 NOT_APPLICABLE = {}
